@@ -980,7 +980,7 @@ def run(ctx):
             ctx.fail(bucket, {"rec": rec}, msg)
 
     ctx.hyp(prop, gm.metadata(), max_examples=ctx.scale(480, 16000),
-            key=lambda rec: rec, shrink_budget=40)
+            key=lambda rec: rec, shrink_budget=24)
 
 
 def replay(case):
